@@ -3563,6 +3563,19 @@ async fn main() -> anyhow::Result<()> {
     let manifest_path = data_dir_path.join("MANIFEST");
     let should_attempt_recovery = config.persistence.enable_recovery && manifest_path.exists();
 
+    // A data directory that still holds snapshots or WAL frames but no MANIFEST has lost its
+    // MANIFEST; starting an empty database on top of it would silently drop every document.
+    if config.persistence.enable_recovery
+        && !manifest_path.exists()
+        && kyrodb_engine::HnswBackend::data_dir_has_persisted_state(&data_dir_path)
+    {
+        anyhow::bail!(
+            "data directory {} contains WAL/snapshot data but no MANIFEST; refusing to initialize \
+             an empty database over existing data (restore the MANIFEST or move the directory away)",
+            data_dir_path.display()
+        );
+    }
+
     let create_empty_engine =
         |cache_strategy: Box<dyn kyrodb_engine::CacheStrategy>,
          query_cache: Arc<kyrodb_engine::QueryHashCache>| {
